@@ -7,7 +7,7 @@
    adds the queue-membership invariant QInv below: a closing handle is in
    no watcher queue, no async list and not in the ready list of the timers. *)
 From UV Require Import Lib.Base Model.Heap Model.Timer Model.LoopCore
-  Proofs.HeapProofs Proofs.TimerProofs Proofs.LoopCoreInv.
+  Proofs.HeapProofs Proofs.TimerProofs Proofs.LoopCoreInv Proofs.UvRunAlt.
 Local Open Scope Z_scope.
 
 Ltac splits := repeat match goal with |- _ /\ _ => split end.
@@ -1546,7 +1546,7 @@ Lemma uv_run_spec fuel s beh mode :
   Good (fst (uv_run fuel s beh mode)) [] [] /\
   TrOK s (snd (uv_run fuel s beh mode)) (fst (uv_run fuel s beh mode)).
 Proof.
-  intros G. unfold uv_run.
+  intros G. rewrite uv_run_alt_eq. unfold uv_run_alt.
   set (s0 := if loop_alive s then s else update_time s).
   assert (G0 : Good s0 [] []) by (unfold s0; destruct (loop_alive s); [exact G|apply Good_update_time; exact G]).
   assert (K0 : KF s s0) by (unfold s0; destruct (loop_alive s); [apply KF_refl|apply KF_update_time]).
@@ -1560,15 +1560,17 @@ Proof.
   cbn zeta in S1.
   match goal with |- context [let '(s1, e0) := ?x in _] => destruct x as [s1 e0] end.
   cbn [fst snd] in S1. destruct S1 as (G1 & T1).
+  set (rr := if Nat.eqb mode 0 && loop_alive s && negb (stop_flag s0) && stop_flag s1
+             then loop_alive s1 else loop_alive s).
   assert (S2 : let r := (if loop_alive s && negb (stop_flag s1) then run_loop fuel s1 beh mode
-                         else (s1, [], loop_alive s)) in
+                         else (s1, [], rr)) in
                Good (fst (fst r)) [] [] /\ TrOK s1 (snd (fst r)) (fst (fst r))).
   { destruct (loop_alive s && negb (stop_flag s1)); cbn zeta.
     - apply run_loop_spec. exact G1.
     - cbn [fst snd]. split; [exact G1|apply TrOK_nil; apply KF_refl]. }
   cbn zeta in S2.
   destruct (if loop_alive s && negb (stop_flag s1) then run_loop fuel s1 beh mode
-            else (s1, [], loop_alive s)) as [[s2 e1] r'].
+            else (s1, [], rr)) as [[s2 e1] r'].
   cbn [fst snd] in *. destruct S2 as (G2 & T2).
   split.
   - eapply Good_core; [exact G2| |]; reflexivity.
@@ -1784,7 +1786,7 @@ Lemma uv_run_result fuel s beh mode :
   exists pre r, snd (uv_run fuel s beh mode) = pre ++ [VRun r] /\
                 (r = false -> loop_alive (fst (uv_run fuel s beh mode)) = false).
 Proof.
-  unfold uv_run.
+  rewrite uv_run_alt_eq. unfold uv_run_alt.
   set (s0 := if loop_alive s then s else update_time s).
   destruct (if Nat.eqb mode 0 && loop_alive s && negb (stop_flag s0)
             then l_run_timers (update_time s0) beh else (s0, [])) as [s1 e0] eqn:E1.
@@ -1792,9 +1794,12 @@ Proof.
   - pose proof (run_loop_result fuel s1 beh mode) as R.
     destruct (run_loop fuel s1 beh mode) as [[s2 e1] r']. cbn [fst snd] in *.
     exists (e0 ++ e1), r'. split; [rewrite app_assoc; reflexivity|]. intros ->. symmetry. exact R.
-  - cbn [fst snd]. exists (e0 ++ []), (loop_alive s). split; [rewrite app_assoc; reflexivity|].
-    intros Ha. rewrite Ha in *. cbn in E1. unfold s0 in E1. rewrite Ha in E1.
-    rewrite andb_false_r in E1. cbn in E1. inversion E1; subst s1. exact Ha.
+  - cbn [fst snd]. eexists (e0 ++ []), _. split; [rewrite app_assoc; reflexivity|].
+    change (loop_alive (set_stop s1 false)) with (loop_alive s1).
+    destruct (Nat.eqb mode 0 && loop_alive s && negb (stop_flag s0) && stop_flag s1) eqn:Ec.
+    + intros Ha. exact Ha.
+    + intros Ha. rewrite Ha in *. cbn in E1. unfold s0 in E1. rewrite Ha in E1.
+      rewrite andb_false_r in E1. cbn in E1. inversion E1; subst s1. exact Ha.
 Qed.
 
 Lemma lrun_app a : forall s b beh,
